@@ -15,6 +15,7 @@ NOT_APPLICABLE = {
     "C38": "soundness of analyser output against all executions on all ledger states is semantic",
     "C42": "proportionality and per-epoch emission bounds are arithmetic over histories; the stake-sorted index is value-level",
     "C46": "semantic equivalence of two WASM programs (before/after instrumentation)",
+    "C22": "agreement of typed codecs with generated schemas is a payload-level relation over every value; the only structural clause in reach (ValueKind of manual Categorize impls vs TypeKind of their Describe impls) could not be extracted reliably: type_data bodies build TypeKind through generic helper constructors and derive-expanded impls are indistinguishable from manual ones in MIR; withdrawn rather than weakened (DESIGN.md C22)",
 }
 
 # property id -> dict(technique, level, text, note, design_ref, configs)
